@@ -3,16 +3,45 @@ script text, and seeded generators.  One line carries both forms:
     script m <hex of the rendered text> ## <abstract tokens>
 the C++ harness reads the hex, the Lean driver reads what follows `##`."""
 
+import struct
+from fractions import Fraction
+
 DURS = [0, 0, 125, 250, 500]
 STEPS = [0, 50, 125, 125, 250, 300, 1000]
+# nominal durations whose decimal spelling is NOT exact in binary32 (0.7 -> 0.699999988…): the engine's
+# `uint64_t(float * 1000.f)` is computed in single precision and happens to give the nominal value;
+# any other evaluation (double product, rounding mode, +0.5) gives nominal-1 for some of them
+INEXACT_DURS = [700, 900, 350, 450, 650, 950, 50, 100, 300, 600, 1100, 2300]
+
+
+def _f32(x):
+    return struct.unpack("<f", struct.pack("<f", x))[0]
+
+
+def _strtof(text):
+    """binary32 nearest to the decimal `text` (what std::strtof returns), computed exactly"""
+    exact = Fraction(text)
+    c = _f32(float(exact))
+    best = c
+    for cand in (c, _f32(c * (1 + 2.0 ** -23)), _f32(c * (1 - 2.0 ** -23))):
+        if abs(Fraction(cand) - exact) < abs(Fraction(best) - exact):
+            best = cand
+    return best
+
+
+def engine_ms(nominal_ms):
+    """milliseconds the engine derives from the literal `secs(nominal_ms)`:
+    `uint64_t(std::strtof(text) * 1000.f)` — binary32 product (exact in double, then rounded once)"""
+    return int(_f32(_strtof(secs(nominal_ms)) * 1000.0))
+
 
 
 def tok(ins):
     k = ins[0]
     if k == "mark": return "m%d" % ins[1]
-    if k == "wait": return "w%d" % ins[1]
+    if k == "wait": return "w%d" % engine_ms(ins[1])
     if k == "waittill": return "W%d.%s" % (ins[1], ".".join(str(n) for n in ins[2]))
-    if k == "waittill_timeout": return "X%d.%d.%d" % (ins[1], ins[2], ins[3])
+    if k == "waittill_timeout": return "X%d.%d.%d" % (ins[1], ins[2], engine_ms(ins[3]))
     if k == "notify": return "N%d.%d" % (ins[1], ins[2])
     if k == "endon": return "E%d.%d" % (ins[1], ins[2])
     if k == "delete": return "D%d" % ins[1]
@@ -20,7 +49,7 @@ def tok(ins):
     if k == "thread": return "t%d" % ins[1]
     if k == "waitthread": return "T%d" % ins[1]
     if k == "pause": return "p"
-    if k == "waitparent": return "R%d" % ins[1]
+    if k == "waitparent": return "R%d" % engine_ms(ins[1])
     if k == "end":
         if ins[1] is None: return "e"
         if isinstance(ins[1], tuple): return "eP%d" % ins[1][1]
@@ -125,6 +154,34 @@ def gen_timer_prog(rng, nlabels=None):
             body.append(("end", rng.choice([None, 7, 42])))
         prog.append(body)
     return prog
+
+
+def gen_inexact_case(rng):
+    """C06 (never early): 1-3 threads waiting durations that are inexact in binary32, and a frame
+    schedule that lands one millisecond before, on, and after each due time"""
+    nl = rng.randint(1, 3)
+    mk = Marks()
+    durs = [rng.choice(INEXACT_DURS) for _ in range(nl)]
+    prog = [[mk.next()] + [("thread", i + 1) for i in range(nl)] + [mk.next()]]
+    for d in durs:
+        body = [mk.next(), ("wait", d), mk.next()]
+        if rng.random() < 0.4:
+            d2 = rng.choice(INEXACT_DURS)
+            body += [("wait", d2), mk.next()]
+        prog.append(body)
+    points = set()
+    for body in prog[1:]:
+        t = 0
+        for ins in body:
+            if ins[0] == "wait":
+                t += engine_ms(ins[1])
+                points |= {t - 1, t, t + 1}
+    lines = ["reset", script_line(prog), "call m t0"]
+    now = 0
+    for t in sorted(x for x in points if x > 0):
+        lines.append("step %d" % (t - now))
+        now = t
+    return lines + ["step 1000", "thread-result"]
 
 
 def gen_sync_prog(rng):
